@@ -697,8 +697,30 @@ func mutRand(c *core.Ctx, t *core.Trace) {
 					path = append(path, s)
 					cur = next
 				}
+				// read-only calls before and behind the call: they leave the content alone
+				if r.Intn(3) == 0 {
+					ls := looksOf(r, h.live, cur, e)
+					h.look(path, ls[r.Intn(len(ls))])
+				}
 				ops := opsOf(r, cur, e)
 				h.mut(path, ops[r.Intn(len(ops))])
+				if r.Intn(3) == 0 && !h.dead {
+					if cur = resolve(h.live, path); cur != nil {
+						ls := looksOf(r, h.live, cur, e)
+						h.look(path, ls[r.Intn(len(ls))])
+					}
+				}
+			}
+			// ... and between two writes without any mutator
+			for k := r.Intn(3); k > 0 && !h.dead; k-- {
+				var paths [][]pstep
+				budget := 40
+				allPaths(h.live, nil, &paths, &budget)
+				p := paths[r.Intn(len(paths))]
+				if cur := resolve(h.live, p); cur != nil {
+					ls := looksOf(r, h.live, cur, e)
+					h.look(p, ls[r.Intn(len(ls))])
+				}
 			}
 			h.write()
 			if r.Intn(5) == 0 {
